@@ -29,7 +29,7 @@ CHECKS = {
         "the alternative its index names, nothing is constructed over a live alternative or destroyed twice, local variants are destroyed, results carry the requested/source index, and conditional noexcept-specifications require a nothrow trait for every element operation the simulated body can raise from; the "
         "index/valueless primitives, base constructors, construct_alt and the destroy visitor have their defining shape; the six relational operators match [variant.relops] for every "
         "valueless/index-order scenario incl. functor and operand order; get/get_if/visit/hash reach an alternative only under their guard; the 32-way dispatch switches of a 40-alternative "
-        "instantiation dispatch the alternative of their label. Element constructors running exactly once inside construct_alt, converting-constructor overload selection and value equality with std::variant are NOT decided. The special members of variant<P, int> exist / are trivial exactly as [variant.ctor]/[variant.assign]/[variant.dtor] require for seven payload kinds, and index 254/255 of 255/256-alternative variants is distinct from valueless (compiler witnesses). swap's noexcept-specification agrees with the swap found by ADL and the moves of the alternatives (witnesses); in a visit of two variants the second variant's switch is entered at block 0.",
+        "instantiation dispatch the alternative of their label. Element constructors running exactly once inside construct_alt, converting-constructor overload selection and value equality with std::variant are NOT decided. The special members of variant<P, int> exist / are trivial exactly as [variant.ctor]/[variant.assign]/[variant.dtor] require for seven payload kinds, and index 254/255 of 255/256-alternative variants is distinct from valueless (compiler witnesses). swap's noexcept-specification agrees with the swap found by ADL and the moves of the alternatives (witnesses); in a visit of two variants the second variant's switch is entered at block 0. The converting assignment is noexcept only if the alternative is nothrow assignable and nothrow constructible from the argument; get_if takes the address with addressof.",
    note="Trusts the interpreter in sa/rules/c05.py and clang's pattern AST; element destructors are assumed not to throw; only the C++14+ (generic lambda, relaxed constexpr) configuration is visible."),
  "C06": dict(level="other", design="4.6",
    technique="object-identity typestate interpretation of the vtable slot functions (effect summaries per slot, both families) and of every member of any under all presence/type/alias scenarios with exceptional successors; writer/vtable/reader agreement table over 11 payload types; guard-dominance rules for the casts",
@@ -38,7 +38,7 @@ CHECKS = {
         "and their destructors, and a throw at the copy slot / payload constructor, keeps vtable-null <=> storage-dead and vtable type == stored type at every normal and exceptional exit, never "
         "constructs over a live object nor uses a dead one, has the presence/type postcondition of copy/move/swap/reset/assignment, and leaves *this untouched when an assignment throws; "
         "requires_allocation, construct(), vtable_for_type() (family and slot order) and cast<T>/cast<const T> agree for payloads on both sides of the in-place threshold (size, alignment, "
-        "nothrow move); pointer any_cast hands out storage only after the null and typeid(T) tests, reference forms go through check_any_cast. Equality of stored values is NOT decided. An assignment from another any takes the source into a temporary before the old content of *this is destroyed (the content may own the source).",
+        "nothrow move); pointer any_cast hands out storage only after the null and typeid(T) tests, reference forms go through check_any_cast. Equality of stored values is NOT decided. An assignment from another any takes the source into a temporary before the old content of *this is destroyed (the content may own the source). Construction and assignment from another any of every constness and value category select the copy/move special members (clang's resolved overloads), never the converting template; the payload is direct-initialised.",
    note="Trusts the interpreters in sa/rules/c06.py and clang's AST; payload constructors/destructors are assumed to do what their names say; type_info identity across shared libraries is out of scope."),
  "C03": dict(level="other", design="4.3",
    technique="path-sensitive typestate (canonical last block) over every instantiated member for 4 block types, exact constant folding of the bit/block helper formulas over all bit offsets, linear bit-displacement/coverage analysis of the shift loops, guard entailment for at()/empty-buffer accesses, size/block-count agreement, folded loop index sets, in-place move order, promotion-decided comparison lint",
@@ -48,7 +48,7 @@ CHECKS = {
         "mask/primitives equal their defining formulas for every bit offset (folded with clang's recorded promotions/conversions, shift-width UB reported); each block move of "
         "<<= / >>= displaces bits by exactly pos, stays inside [0,last], and moved ranges + zero fill tile the buffer; at() throws out_of_range exactly for i >= size(); "
         "front/back/[0]/[count-1] need a dominating non-emptiness fact; the buffer is sized ceil(size/W) wherever size is set; resize(n,true) patches the old last block; "
-        "no block comparison is decided by integer promotion; every loop that subscripts the block buffer visits exactly the blocks of the buffer for every size 0..2W+1 (bounds folded; a separately treated last block keeps every valid bit under its mask); the in-place block moves of the shifts run away from their sources; the popcount table and the bit-reference assignment operators are folded exactly; all rules are repeated on the narrowest block type under the other language levels. Bit values produced by operation histories are NOT decided.",
+        "no block comparison is decided by integer promotion; every loop that subscripts the block buffer visits exactly the blocks of the buffer for every size 0..2W+1 (bounds folded; a separately treated last block keeps every valid bit under its mask); the in-place block moves of the shifts run away from their sources; the popcount table and the bit-reference assignment operators are folded exactly; all rules are repeated on the narrowest block type under the other language levels. Bit values produced by operation histories are NOT decided. An operator== overload of a derived container class is held to the same size rule as the base's.",
    note="Assumes callers respect pos < size() for unchecked single-bit operations and equal sizes for blockwise operators; a restructured shift algorithm is reported as analysis-broken (exit 2), not as a violation; trusts sa/flow.py, sa/ceval.py, sa/linear.py."),
  "C17": dict(level="other", design="4.15",
    technique="abstract execution of INSTANTIATED dispatchers over the calls clang resolved: static_dispatcher for every pair of dynamic types (same and different rhs list, symmetric or not), basic_fast_dispatcher insert/dispatch over the nested table with three levels; path-wise guard-dominance rules for the map lookups, the visitors and resize_container (linear entailment incl. its exit postcondition); policy reachability over the calls clang resolved in instantiations",
@@ -57,7 +57,7 @@ CHECKS = {
         "basic_fast_dispatcher::dispatch calls m_callbacks[idx0][idx1][idx2](args..., udargs...) with idx_k the class index of argument k, subscripting each level only after idx_k < size() was established and raising the error otherwise; "
         "insert<D0,D1,D2> stores the handler at that slot with the static class indices of D in order, subscripting only after resize_container; resize_container never shrinks a level and leaves index[I] < size() on every path; "
         "in every member of basic_dispatcher an iterator from m_callback_map.find() is used only where it was compared with end(); registration assigns (replaces) under make_key<D...>(); keys come from typeid(args)...; "
-        "handler wrappers cast args position-wise and append the undispatched ones; a failed visitor cast goes to the configured catch_all policy, a successful one to visit(). accept_impl of a visitable declared with a non-default catch_all (the library's throwing policy, a user policy; const and non-const) reaches on_unknown_visitor of exactly that policy, through whatever helpers. The casting policies return the named static_cast/dynamic_cast of their parameter (no reinterpreting cast).",
+        "handler wrappers cast args position-wise and append the undispatched ones; a failed visitor cast goes to the configured catch_all policy, a successful one to visit(). accept_impl of a visitable declared with a non-default catch_all (the library's throwing policy, a user policy; const and non-const) reaches on_unknown_visitor of exactly that policy, through whatever helpers. The casting policies return the named static_cast/dynamic_cast of their parameter (no reinterpreting cast). The nested tables of the fast dispatcher are plain vectors: resize(n) gives n elements.",
    note="Run-time class-index state across registration histories is not decided; unrelated leaf classes stand for the dynamic types; trusts the two small interpreters in sa/rules/c17_static.py and c17_fast.py."),
  "C10": dict(level="other", design="4.8",
    technique="symbolic evaluation of every operator / wrapper body over the parts of *this and the operands (two spellings of the same computation evaluate to the same value), truth tables of ==/!= over (real equal, imag equal), polynomial identity of the mul/div formulas in (a,b,c,d), Annex-G idiom rule, closure-kind compile witnesses",
@@ -88,7 +88,7 @@ CHECKS = {
         "accessors of xclosure_wrapper/xoptional/xmasked_value/xcomplex (incl. mixed closures), operator& of wrappers and proxies, forward_sequence and "
         "proxy_wrapper; must-compile witnesses with a type that can be neither copied nor moved prove 'without copying it', move-only temporaries prove "
         "ownership; must-not-compile witnesses reject writes through const closures; on the instantiated wrappers an lvalue closure stores &param, get() yields *m_wrappee and operator& m_wrappee, a value closure stores the value, "
-        "yields m_wrappee and &m_wrappee; nothing rebinds the stored pointer; assignment, swap and equality act on the referents of both operands. Converting construction/assignment of an owning xoptional from an rvalue reference-closure proxy copies the referent (resolved payload constructor/assignment), and bitset element references write exactly the designated bit from the source (exact folding shared with C03). The bit-reference assignment operators, in any spelling, are executed on concrete models including the case where source and destination are the same bit.",
+        "yields m_wrappee and &m_wrappee; nothing rebinds the stored pointer; assignment, swap and equality act on the referents of both operands. Converting construction/assignment of an owning xoptional from an rvalue reference-closure proxy copies the referent (resolved payload constructor/assignment), and bitset element references write exactly the designated bit from the source (exact folding shared with C03). The bit-reference assignment operators, in any spelling, are executed on concrete models including the case where source and destination are the same bit. Both the const and the mutable bit reference hold the block by reference; real()/imag() of plain numbers and proxy_wrapper of lvalues have their documented value categories.",
    note="Checked with clang++ -std=gnu++17 and g++ -std=gnu++14 (quick) and both compilers x C++14/17/20 (thorough); const rvalue sources may map to a const value; lifetime misuse in user code is out of scope."),
  "C14": dict(level="other", design="4.12",
    technique="call-site/effect lint closed under library helpers, interval check of byte reads, cursor discipline by a linear symbolic step of the block loop (cursor/remaining deltas, load offsets against the guard) and a per-remainder evaluation of the tail, and equality of the dataflow summary (initial value, per-block update, post-loop value per remainder as expression trees, helpers and locals followed) with the reference MurmurHash2/64A; index-form block loops by the division identity L = w*q + r; symbolic-byte execution of the tail loader",
